@@ -141,17 +141,23 @@ func batchIncr(cases [][]string, out *bufio.Writer) {
 				// quiescence: the whole stream written and two ticker periods without any Send/Flush;
 				// or nothing at all for 6 s while the stream is still not accepted (stalled)
 				written := false
+				var writtenAt time.Time
 				for {
 					time.Sleep(100 * time.Millisecond)
 					select {
 					case <-wdone:
-						written = true
+						if !written {
+							written = true
+							writtenAt = time.Now()
+						}
 					default:
 					}
 					conn.mu.Lock()
 					idle := time.Since(conn.last)
 					conn.mu.Unlock()
-					if written && idle > 1200*time.Millisecond {
+					// at least five ticker periods after the last byte was accepted: under load the 500 ms
+					// ticker of the sender can fire late, and a group flushed only by it must still be seen
+					if written && idle > 1200*time.Millisecond && time.Since(writtenAt) > 2500*time.Millisecond {
 						break
 					}
 					if !written && idle > 6*time.Second {
